@@ -17,7 +17,17 @@ STUB_CONN = STUB_NET + ["remote peer (scripted raw-segment peer built from the s
 
 CS_RULE = "one evaluation = one simulated run of a real chain-sync client (NtN or NtC, pipeline limit from {0,1,2,3,7,10,50,100}, parsed or raw callbacks, slow callbacks) syncing from a real server Connection whose RequestNextFunc plays a model history of 3-42 roll-forwards (real blocks of 7 eras), roll-backwards and await-replies, optionally cancelled by ErrStopSyncProcess and followed by Client.Stop; distinct = distinct schedule hash; non-trivial = more than one request was outstanding at some callback (pipelining observed) or a clean stop was evaluated"
 
+PL_RULE = "one evaluation = one simulated run of a real BlockPipeline (1-16 decode workers, prefetch buffer 1-8, validation off) fed by 1-3 submitter tasks with 1-10 real or truncated blocks each, a slow or fast ApplyFunc, 0-2 WaitForDrain callers, Submit contexts that expire under backpressure, and Stop either after everything drained or at an arbitrary instant; distinct = distinct schedule hash; "
+REAL_PL = ["pipeline.BlockPipeline, worker pools, decode stage, apply stage and runner", "ledger block decoding"]
+STUB_PL = ["clock (testing/synctest)", "Go scheduler decisions (verifsimrt)", "application (submitters, ApplyFunc, result/error drainers)"]
+
 PROPS = {
+ "C42": P([("pipeline", 1)], 1600, 60000, PL_RULE + "non-trivial = the run was fully checked after draining, or Stop landed during submissions",
+          ["pl.full-run-checked", "pl.stop-during-submissions"], real=REAL_PL, stubs=STUB_PL, assumptions=["validation stage is not enabled (it needs epoch nonce and KES parameters that match the fixture blocks)"]),
+ "C43": P([("pipeline", 1)], 1600, 60000, PL_RULE + "non-trivial = a WaitForDrain call returned nil and was compared with the apply log",
+          ["pl.drain-returned"], real=REAL_PL, stubs=STUB_PL),
+ "C44": P([("pipeline", 1)], 1600, 60000, PL_RULE + "non-trivial = a Submit failed on context expiry and later submissions were checked",
+          ["pl.submit-failed"], expect=["pl.submit-failed", "pl.survived-failed-submission"], real=REAL_PL, stubs=STUB_PL),
  "C25": P([("localrpc", 1)], 1600, 60000,
           "one evaluation = one simulated run of a local-state-query, local-tx-monitor, local-tx-submission or peer-sharing client shared by 1-4 application tasks issuing 1-6 calls each (queries, re-acquires, has-tx/next-tx/sizes, submits, get-peers) against a real server Connection whose callbacks tag every reply (query counter, accept/reject bit of the submitted bytes, number of peers requested, fixed real-transaction mempool); each return value must carry its own request's tag, tags must be unique and consistent with real-time order; distinct = distinct schedule hash; non-trivial = more than one task called the shared client",
           ["rpc.concurrent-callers"], expect=["rpc.concurrent-callers", "rpc.lsq", "rpc.ltm", "rpc.lts", "rpc.ps"], real=REAL_CONN + ["ledger transaction decoding (mempool)"], stubs=STUB_NET + ["application (tagging callbacks)"],
